@@ -80,12 +80,39 @@ def monitor(case):
                     if len(late) > 2 * case['width']:
                         return 'responses for discarded requests after a flush: %s' % late
             nack += 1
+    # emptiness rule: once a discard was acknowledged and afterwards the top port was seen empty,
+    # no response for a request delivered before that discard may ever appear
+    nack = 0
+    for i, e in enumerate(ev):
+        if e['e'] == 'rc' and e.get('got'):
+            if nack < len(acc_ctl_idx) and ev[acc_ctl_idx[nack]]['msg']['flags'] & 1:
+                d = acc_ctl_idx[nack]
+                before = {x['msg']['id'] for x in ev[:d] if x['e'] == 'dt' and x.get('acc')}
+                empty_at = next((j for j in range(i, len(ev)) if ev[j]['e'] == 'rt' and ev[j].get('none')), None)
+                if empty_at is not None:
+                    late = [x['got']['rspto'] for x in ev[empty_at:] if x['e'] == 'rt' and x.get('got') and x['got']['rspto'] in before]
+                    if late:
+                        return 'response for discarded request(s) %s after the flush was acknowledged and the top port had drained' % late
+            nack += 1
+    # quiescence rule (no silent loss): after a fair drain tail that ended quiet, every request delivered
+    # after the last control message was acknowledged (all of them if there was none) has been answered
+    if case.get('quiet') and not case.get('hostile'):
+        acks = [i for i, e in enumerate(ev) if e['e'] == 'rc' and e.get('got')]
+        forwarded = {e['got']['id'] for e in ev if e['e'] == 'rb' and e.get('got')}
+        replied = {e['msg']['rspto'] for e in ev if e['e'] == 'db' and e.get('acc')}
+        if forwarded <= replied and len(acks) == len(acc_ctl_idx) and (not acc_ctl_idx or ev[acc_ctl_idx[-1]]['msg']['flags'] & 2):
+            start = acks[-1] if acks else -1
+            must = [e['msg']['id'] for i, e in enumerate(ev) if i > start and e['e'] == 'dt' and e.get('acc')]
+            answered = set(rsptos)
+            lost = [x for x in must if x not in answered]
+            if lost:
+                return 'request(s) %s accepted after the last restart were never answered although the system went quiet' % lost[:5]
     return None
 
 
 def strip(case):
     """events without observations (replay input)"""
-    return {'cap': case['cap'], 'width': case['width'], 'hostile': case.get('hostile', False),
+    return {'cap': case['cap'], 'width': case['width'], 'hostile': case.get('hostile', False), 'quiet': case.get('quiet', False),
             'events': [{'e': e['e'], **({'msg': e['msg']} if 'msg' in e else {})} for e in case['events']]}
 
 
